@@ -638,7 +638,7 @@ def one_round(chk, ctx, rng, cap, d):
     fs7, _ = gen_spectrum(ctx, rng, d, cap)
     case_foldunfold(chk, ctx, fs7)
     # one-axis projection (model used by C10_commute_project_marginalize)
-    fs9, _ = gen_spectrum(ctx, rng, d, cap, folded=False)
+    fs9, _ = gen_spectrum(ctx, rng, d, 40 if d == 1 else min(cap, 250), folded=False)   # binomials of the model are exact bignums
     k9 = int(rng.integers(d)); n9 = fs9.shape[k9] - 1
     m9 = int(rng.integers(1, n9 + 1)) if rng.random() < 0.9 else n9 + 1
     case_project_one(chk, ctx, fs9, k9, m9)
